@@ -125,6 +125,15 @@ let () =
     while true do
       let line = input_line stdin in
       match String.split_on_char '\t' line with
+      | ["CLASSES"; id; feats; sx] ->
+        (try
+           let d = dinput (parse_sexp sx) in
+           let f = features feats in
+           print_string id; print_char '\t'; print_string "CLASSES"; print_char '\t';
+           print_string (String.concat "," (invalid_classes f d)); print_char '|';
+           print_string (String.concat "," (invalid_classes_modulo_gap f d)); print_char '|';
+           print_string (if known_gap f d then "gap" else ""); print_newline ()
+         with Failure m -> (print_string id; print_string "\tCLASSES\tBADINPUT"; print_newline ()))
       | [id; feats; sx] ->
         let (cls, payload) =
           (try
